@@ -36,10 +36,11 @@ class Inter:
             return P(head + b'\x00\xff', head if (i % 2) else None)
         if self.size == 'F':
             # fragmenting payloads; the shape rotates with the element index so that boundary sizes occur:
-            # generic multi-fragment, exact multiple of the fragment body, exactly one full frame, one byte more, metadata only
-            fs, flavour = getattr(self, 'ctx', (64, 'tcp'))
-            body = (fs or 64) - 6 - (3 if flavour == 'tcp' else 0)
-            shape = (i + {'q': 0, 'r': 1, 'd': 0, 'u': 2}[role] + (3 if (self.tag == 'B' and role == 'q') else 0)) % 5
+            # generic multi-fragment, exact multiple of the fragment body, exactly one full frame, one byte more, metadata only,
+            # metadata tail ending 2 bytes short of a fragment (data shares that fragment), metadata exactly filling a fragment
+            fs, flavour, rot = (tuple(getattr(self, 'ctx', (64, 'tcp'))) + (0,))[:3]
+            body = (fs or 64) - 6 - (3 if flavour in ('tcp', 'quic') else 0)
+            shape = (i + {'q': 0, 'r': 1, 'd': 0, 'u': 2}[role] + (3 if (self.tag == 'B' and role == 'q') else 0) + rot) % 7
             if shape == 0:
                 return P(head + _FILL[:150 + i], head + _FILL[:70])
             if shape == 1:
@@ -48,6 +49,10 @@ class Inter:
                 return P((head + _FILL)[:body], None)
             if shape == 3:
                 return P((head + _FILL)[:body + 1], None)
+            if shape == 5:
+                return P(head + b'dd', (head + _FILL)[:body - 2])
+            if shape == 6:
+                return P(head + _FILL[:10], (head + _FILL)[:body])
             return P(None, head + _FILL[:130])
         if self.size == 'M':  # metadata only, more than one fragment of metadata
             return P(None, head + _FILL[:130])
@@ -63,6 +68,11 @@ def tag_of(payload):
 
 class Mix(Scenario):
     """A mix of interactions between a real client and a real server."""
+
+    def shape_rotation(self):
+        """Which of the 7 fragmenting payload shapes element 0 gets: varies from scenario to scenario (deterministically), so
+        that every shape occurs in every position across a scenario set."""
+        return sum(3 * it.down + 5 * it.up + len(it.kind) + (2 if it.init == 's' else 0) for it in self.inters) % 7
 
     def __init__(self, inters, flavour='tcp', fs=None, alts=('all',), modes=('Q',), monitors_=('delivery',),
                  name='mix', client_kw=None, server_kw=None, policy='deliver-first', round_robin=False, slow_sender=False):
@@ -86,7 +96,7 @@ class Mix(Scenario):
     # ------------------------------------------------------------------------------------------------------------
     def setup(self, w):
         for i in self.inters:
-            i.ctx = (self.fs, self.flavour)
+            i.ctx = (self.fs, self.flavour, self.shape_rotation())
         by_tag = {i.tag: i for i in self.inters}
         w.objs['inters'] = by_tag
         st = w.objs['st'] = {i.tag: {} for i in self.inters}  # per-interaction runtime objects
@@ -342,7 +352,7 @@ class Mix(Scenario):
 
     def check_delivery(self, w):
         for i in self.inters:
-            i.ctx = (self.fs, self.flavour)
+            i.ctx = (self.fs, self.flavour, self.shape_rotation())
         out = []
         calls = {'c0': [], 's0': []}
         for ev in w.log:
